@@ -7021,6 +7021,14 @@ class _RoundShape(Shape):
 
         Converts the parameters from an ellipse or a circle to a string for a
         Path object d-attribute"""
+        if transformed:
+            m = self.transform
+            skewed = m.a * m.c + m.b * m.d
+            if abs(skewed) > 1e-12 * (m.a * m.a + m.b * m.b + m.c * m.c + m.d * m.d):
+                # The images of the two radii are not orthogonal (shear, rotated non-uniform scale):
+                # the implicit radii and rotation do not describe the image ellipse.
+                # Decompose in user space and map the arcs, which is exact for every affine map.
+                return [s * m for s in self.segments(False)]
         original = self.apply
         self.apply = transformed
         path = Path()
